@@ -1,120 +1,137 @@
-(* JsonB64P — the base64 instance of the C20 codec parameter satisfies the hypothesis of the
-   round-trip theorem: protojson's bytes decoder (std/url alphabet selection, padding selection)
-   inverts base64.StdEncoding on every byte string. *)
-From Coq Require Import List Arith NArith ZArith Lia Bool.
+(* bytes fields: standard base64 with padding on output; decode (encode b) = b through the
+   variant selection of unmarshalBytes. *)
+From Coq Require Import List NArith ZArith Lia Bool.
 From Coq Require Import ZifyBool ZifyNat ZifyN.
-From PB Require Import Base.PBytes Json.JsonMsgModel Json.JsonWktLite.
-Ltac Zify.zify_post_hook ::= Z.div_mod_to_equations.
+From PB Require Import Base.PBytes Json.JsonUtf8 Json.JsonGrammar Json.JsonNumModel Json.JsonNumP
+  Json.JsonLexModel Json.JsonEncModel Json.JsonEncP Json.JsonScalarModel.
 Import ListNotations.
 Open Scope N_scope.
+Ltac Zify.zify_post_hook ::= Z.div_mod_to_equations.
 
-(* ---------- the arithmetic of one quantum (clean contexts keep lia fast) ---------- *)
-Lemma q1_arith a : a < 256 -> let n := a * 16 in
-  n / 64 < 64 /\ n mod 64 < 64 /\ (n / 64 * 64 + n mod 64) / 16 = a.
-Proof. intros H n. subst n. lia. Qed.
-
-Lemma q2_arith a b : a < 256 -> b < 256 -> let n := a * 1024 + b * 4 in
-  n / 4096 < 64 /\ (n / 64) mod 64 < 64 /\ n mod 64 < 64 /\
-  n / 4096 * 4096 + (n / 64) mod 64 * 64 + n mod 64 = n /\ n / 1024 = a /\ (n / 4) mod 256 = b.
-Proof. intros Ha Hb n. subst n. repeat split; lia. Qed.
-
-Lemma q3_arith a b c : a < 256 -> b < 256 -> c < 256 -> let n := a * 65536 + b * 256 + c in
-  n / 262144 < 64 /\ (n / 4096) mod 64 < 64 /\ (n / 64) mod 64 < 64 /\ n mod 64 < 64 /\
-  n / 262144 * 262144 + (n / 4096) mod 64 * 4096 + (n / 64) mod 64 * 64 + n mod 64 = n /\
-  n / 65536 = a /\ (n / 256) mod 256 = b /\ n mod 256 = c.
-Proof. intros Ha Hb Hc n. subst n. repeat split; lia. Qed.
-
-Definition sixbits : list N := map N.of_nat (seq 0 64).
-
-Lemma sixbits_in n : n < 64 -> In n sixbits.
+Lemma b64_val_char url v : v < 64 -> b64_val url (b64_char url v) = Some v.
 Proof.
-  intros H. unfold sixbits. apply in_map_iff. exists (N.to_nat n). split; [lia|]. apply in_seq. lia.
+  intros H. unfold b64_char, b64_val, is_digit, in_range.
+  destruct (v <? 26) eqn:E1.
+  { rewrite b2n_n2b by lia. replace ((65 <=? 65 + v) && (65 + v <=? 90)) with true by lia. f_equal. lia. }
+  destruct (v <? 52) eqn:E2.
+  { rewrite b2n_n2b by lia. replace ((65 <=? 71 + v) && (71 + v <=? 90)) with false by lia.
+    replace ((97 <=? 71 + v) && (71 + v <=? 122)) with true by lia. f_equal. lia. }
+  destruct (v <? 62) eqn:E3.
+  { rewrite b2n_n2b by lia. replace ((65 <=? v - 4) && (v - 4 <=? 90)) with false by lia.
+    replace ((97 <=? v - 4) && (v - 4 <=? 122)) with false by lia.
+    replace ((48 <=? v - 4) && (v - 4 <=? 57)) with true by lia. f_equal. lia. }
+  destruct (v =? 62) eqn:E4.
+  { destruct url; cbn; f_equal; lia. }
+  assert (v = 63) by lia. subst. destruct url; reflexivity.
 Qed.
 
-Lemma b64_char_facts n : n < 64 ->
-  b64_val false (b64_char n) = Some n /\ is_pad (b64_char n) = false /\
-  ((b2n (b64_char n) =? 45) || (b2n (b64_char n) =? 95)) = false.
+Lemma n2b_of a x : x = b2n a -> n2b x = a.
+Proof. intros ->. apply n2b_b2n. Qed.
+
+Lemma is_n2b_false n c : n < 256 -> n <> b2n c -> is (n2b n) c = false.
+Proof. intros H1 H2. apply is_b2n_false. now rewrite b2n_n2b. Qed.
+
+Lemma b64_char_std_not_url v : v < 64 -> (is (b64_char false v) c_minus || is (b64_char false v) c_us) = false.
 Proof.
-  intros H.
-  assert (Hall : forallb (fun n => match b64_val false (b64_char n) with Some m => m =? n | None => false end
-                                   && negb (is_pad (b64_char n))
-                                   && negb ((b2n (b64_char n) =? 45) || (b2n (b64_char n) =? 95))) sixbits = true)
-    by (vm_compute; reflexivity).
-  rewrite forallb_forall in Hall. specialize (Hall n (sixbits_in n H)).
-  apply andb_prop in Hall. destruct Hall as [Hall H3]. apply andb_prop in Hall. destruct Hall as [H1 H2].
-  destruct (b64_val false (b64_char n)) as [m|]; [|discriminate]. apply N.eqb_eq in H1. subst m.
-  apply negb_true_iff in H2, H3. repeat split; assumption.
+  intros H. unfold b64_char. change (b2n c_minus) with 45. 
+  assert (Hm : b2n c_minus = 45) by reflexivity. assert (Hu : b2n c_us = 95) by reflexivity.
+  destruct (v <? 26) eqn:E1. { rewrite !is_n2b_false; auto; lia. }
+  destruct (v <? 52) eqn:E2. { rewrite !is_n2b_false; auto; lia. }
+  destruct (v <? 62) eqn:E3. { rewrite !is_n2b_false; auto; lia. }
+  destruct (v =? 62); reflexivity.
 Qed.
 
-Lemma list3_ind (P : list byte -> Prop) :
-  P [] -> (forall a, P [a]) -> (forall a b, P [a; b]) ->
-  (forall a b c r, P r -> P (a :: b :: c :: r)) -> forall l, P l.
+(* four alphabet characters make one quantum *)
+Lemma quantum4 f url pad c0 c1 c2 c3 v0 v1 v2 v3 rest :
+  b64_val url c0 = Some v0 -> b64_val url c1 = Some v1 -> b64_val url c2 = Some v2 -> b64_val url c3 = Some v3 ->
+  b64_quantum (S (S (S (S (S f))))) url pad 0 [] (c0 :: c1 :: c2 :: c3 :: rest) = QOk [v0; v1; v2; v3] rest.
+Proof. intros H0 H1 H2 H3. cbn [b64_quantum Nat.eqb]. rewrite H0, H1, H2, H3. reflexivity. Qed.
+
+Lemma quantum_pad2 f c0 c1 v0 v1 :
+  b64_val false c0 = Some v0 -> b64_val false c1 = Some v1 ->
+  b64_quantum (S (S (S (S (S f))))) false true 0 [] [c0; c1; c_pad; c_pad] = QOk [v0; v1] [].
+Proof. intros H0 H1. cbn [b64_quantum Nat.eqb]. rewrite H0, H1. reflexivity. Qed.
+Lemma quantum_pad1 f c0 c1 c2 v0 v1 v2 :
+  b64_val false c0 = Some v0 -> b64_val false c1 = Some v1 -> b64_val false c2 = Some v2 ->
+  b64_quantum (S (S (S (S (S f))))) false true 0 [] [c0; c1; c2; c_pad] = QOk [v0; v1; v2] [].
+Proof. intros H0 H1 H2. cbn [b64_quantum Nat.eqb]. rewrite H0, H1, H2. reflexivity. Qed.
+
+Lemma sextets (a b c : N) : a < 256 -> b < 256 -> c < 256 ->
+  let v := a * 65536 + b * 256 + c in
+  v / 262144 < 64 /\ (v / 4096) mod 64 < 64 /\ (v / 64) mod 64 < 64 /\ v mod 64 < 64 /\
+  (let w := v / 262144 * 262144 + (v / 4096) mod 64 * 4096 + (v / 64) mod 64 * 64 + v mod 64 in
+   w / 65536 = a /\ (w / 256) mod 256 = b /\ w mod 256 = c).
+Proof. intros Ha Hb Hc v. subst v. cbn zeta. repeat split; lia. Qed.
+
+Lemma b64_encode_length_mod s : (length (b64_encode false s) mod 4 = 0)%nat /\ (length s <= length (b64_encode false s))%nat.
 Proof.
-  intros H0 H1 H2 H3 l.
-  assert (H : forall n l, (length l <= n)%nat -> P l).
-  { induction n as [|n IH]; intros l' Hl.
-    - destruct l'; [exact H0|cbn in Hl; lia].
-    - destruct l' as [|a [|b [|c r]]]; [exact H0|apply H1|apply H2|].
-      apply H3. apply IH. cbn [length] in Hl. lia. }
-  apply (H (length l)). lia.
+  assert (H : forall n s, (length s <= n)%nat ->
+            (length (b64_encode false s) mod 4 = 0)%nat /\ (length s <= length (b64_encode false s))%nat).
+  { induction n as [|n IH]; intros [|a [|b [|c r]]] Hl; cbn [length] in Hl; try lia; cbn [b64_encode length];
+      try (split; [reflexivity|lia]).
+    destruct (IH r ltac:(lia)) as [H1 H2]. split; [|lia].
+    change (S (S (S (S (length (b64_encode false r)))))) with (4 + length (b64_encode false r))%nat.
+    rewrite Nat.add_mod by lia. rewrite H1. reflexivity. }
+  apply (H (length s)). lia.
 Qed.
 
-Definition no_url (s : list byte) : Prop := existsb (fun c => (b2n c =? 45) || (b2n c =? 95)) s = false.
-
-Lemma pad_no_url : ((b2n x3d =? 45) || (b2n x3d =? 95)) = false. Proof. reflexivity. Qed.
-
-Lemma b64_encode_props l :
-  no_url (b64_encode l) /\ (N.of_nat (length (b64_encode l)) mod 4 = 0) /\
-  b64_dec_aux false true (b64_encode l) = Some l.
+Lemma b64_encode_std_alphabet s :
+  existsb (fun b => is b c_minus || is b c_us) (b64_encode false s) = false.
 Proof.
-  induction l as [|a|a b|a b c r IH] using list3_ind.
-  - repeat split; reflexivity.
-  - (* one byte *)
-    destruct (q1_arith (b2n a) (b2n_lt a)) as (H1 & H2 & E1). set (n := b2n a * 16) in *.
-    destruct (b64_char_facts _ H1) as (V1 & P1 & U1). destruct (b64_char_facts _ H2) as (V2 & P2 & U2).
-    cbn [b64_encode]. fold n. split; [|split].
-    + unfold no_url. cbn [existsb]. rewrite U1, U2, pad_no_url. reflexivity.
-    + reflexivity.
-    + cbn [b64_dec_aux andb]. change (is_pad x3d) with true. cbn iota. unfold b64_q2. rewrite V1, V2.
-      rewrite E1, n2b_b2n. reflexivity.
-  - (* two bytes *)
-    destruct (q2_arith (b2n a) (b2n b) (b2n_lt a) (b2n_lt b)) as (H1 & H2 & H3 & Em & Ea & Eb).
-    set (n := b2n a * 1024 + b2n b * 4) in *.
-    destruct (b64_char_facts _ H1) as (V1 & P1 & U1). destruct (b64_char_facts _ H2) as (V2 & P2 & U2).
-    destruct (b64_char_facts _ H3) as (V3 & P3 & U3).
-    cbn [b64_encode]. fold n. split; [|split].
-    + unfold no_url. cbn [existsb]. rewrite U1, U2, U3, pad_no_url. reflexivity.
-    + reflexivity.
-    + cbn [b64_dec_aux andb]. change (is_pad x3d) with true. rewrite P3. cbn iota. unfold b64_q3. rewrite V1, V2, V3.
-      rewrite Em, Ea, Eb, !n2b_b2n. reflexivity.
-  - (* three bytes and the rest *)
-    destruct IH as (IHu & IHl & IHd).
-    destruct (q3_arith (b2n a) (b2n b) (b2n c) (b2n_lt a) (b2n_lt b) (b2n_lt c)) as (H1 & H2 & H3 & H4 & Em & Ea & Eb & Ec).
-    set (n := b2n a * 65536 + b2n b * 256 + b2n c) in *.
-    destruct (b64_char_facts _ H1) as (V1 & P1 & U1). destruct (b64_char_facts _ H2) as (V2 & P2 & U2).
-    destruct (b64_char_facts _ H3) as (V3 & P3 & U3). destruct (b64_char_facts _ H4) as (V4 & P4 & U4).
-    cbn [b64_encode]. fold n.
-    assert (Hq : b64_q4 false (b64_char (n / 262144)) (b64_char ((n / 4096) mod 64)) (b64_char ((n / 64) mod 64))
-                        (b64_char (n mod 64)) = Some [a; b; c]).
-    { unfold b64_q4. rewrite V1, V2, V3, V4.
-      rewrite Em, Ea, Eb, Ec, !n2b_b2n. reflexivity. }
-    split; [|split].
-    + unfold no_url in *. cbn [existsb]. rewrite U1, U2, U3, U4. exact IHu.
-    + cbn [length]. clear - IHl. lia.
-    + cbn [b64_dec_aux]. destruct (b64_encode r) as [|x r'] eqn:Er.
-      * (* the last quantum *)
-        rewrite P4. cbn [andb]. rewrite Hq.
-        destruct r as [|? [|? [|? ?]]]; cbn [b64_encode] in Er; try discriminate. reflexivity.
-      * rewrite Hq, IHd. reflexivity.
+  assert (H : forall n s, (length s <= n)%nat -> existsb (fun b => is b c_minus || is b c_us) (b64_encode false s) = false).
+  { induction n as [|n IH]; intros [|a [|b [|c r]]] Hl; cbn [length] in Hl; try lia; cbn [b64_encode existsb]; auto.
+    - pose proof (b2n_lt a). rewrite !b64_char_std_not_url by lia. reflexivity.
+    - pose proof (b2n_lt a). pose proof (b2n_lt b). rewrite !b64_char_std_not_url by lia. reflexivity.
+    - pose proof (b2n_lt a). pose proof (b2n_lt b). pose proof (b2n_lt c).
+      rewrite !b64_char_std_not_url by lia. cbn [orb]. apply IH. lia. }
+  apply (H (length s)). lia.
 Qed.
 
-Theorem b64_roundtrip bs : b64_decode (b64_encode bs) = Some bs.
+Theorem b64_decode_encode_loop n : forall s fuel, (length s <= n)%nat -> (length s < fuel)%nat ->
+  b64_decode_loop fuel false true (b64_encode false s) = Some s.
 Proof.
-  destruct (b64_encode_props bs) as (Hu & Hl & Hd).
-  unfold b64_decode. unfold no_url in Hu. rewrite Hu.
-  assert ((N.of_nat (length (b64_encode bs)) mod 4 =? 0) = true) as -> by (apply N.eqb_eq; exact Hl).
-  exact Hd.
+  induction n as [|n IH]; intros s fuel Hl Hf.
+  { destruct s; [|cbn [length] in Hl; lia]. destruct fuel; [lia|]. reflexivity. }
+  destruct fuel as [|fuel]; [lia|].
+  destruct s as [|a [|b [|c r]]]; cbn [length] in *.
+  - reflexivity.
+  - (* one byte: xx== *)
+    pose proof (b2n_lt a) as Ha. cbn [b64_encode b64_decode_loop length].
+    destruct (sextets (b2n a) 0 0 Ha ltac:(lia) ltac:(lia)) as (H0 & H1 & _ & _ & Hw & _). cbn zeta in *.
+    replace (b2n a * 65536 + 0 * 256 + 0) with (b2n a * 65536) in * by lia.
+    rewrite (quantum_pad2 _ _ _ _ _ (b64_val_char false _ H0) (b64_val_char false _ H1)).
+    destruct fuel; [lia|]. cbn [b64_decode_loop length b64_quantum Nat.eqb].
+    unfold b64_quantum_bytes. cbn [nth length Nat.sub firstn app].
+    repeat f_equal; apply n2b_of; lia.
+  - (* two bytes: xxx= *)
+    pose proof (b2n_lt a) as Ha. pose proof (b2n_lt b) as Hb. cbn [b64_encode b64_decode_loop length].
+    destruct (sextets (b2n a) (b2n b) 0 Ha Hb ltac:(lia)) as (H0 & H1 & H2 & _ & Hw1 & Hw2 & _). cbn zeta in *.
+    replace (b2n a * 65536 + b2n b * 256 + 0) with (b2n a * 65536 + b2n b * 256) in * by lia.
+    rewrite (quantum_pad1 _ _ _ _ _ _ _ (b64_val_char false _ H0) (b64_val_char false _ H1) (b64_val_char false _ H2)).
+    destruct fuel; [lia|]. cbn [b64_decode_loop length b64_quantum Nat.eqb].
+    unfold b64_quantum_bytes. cbn [nth length Nat.sub firstn app].
+    repeat f_equal; apply n2b_of; lia.
+  - (* three bytes *)
+    pose proof (b2n_lt a) as Ha. pose proof (b2n_lt b) as Hb. pose proof (b2n_lt c) as Hc.
+    cbn [b64_encode b64_decode_loop length].
+    destruct (sextets (b2n a) (b2n b) (b2n c) Ha Hb Hc) as (H0 & H1 & H2 & H3 & Hw1 & Hw2 & Hw3). cbn zeta in *.
+    rewrite (quantum4 _ false true _ _ _ _ _ _ _ _ _ (b64_val_char false _ H0) (b64_val_char false _ H1)
+               (b64_val_char false _ H2) (b64_val_char false _ H3)).
+    rewrite (IH r fuel) by lia.
+    unfold b64_quantum_bytes. cbn [nth length Nat.sub firstn app].
+    repeat f_equal; apply n2b_of; lia.
 Qed.
 
-Theorem std_codec_b64 bs : b64_dec std_codec (b64_enc std_codec bs) = Some bs.
-Proof. exact (b64_roundtrip bs). Qed.
+Theorem b64_decode_encode s : b64_decode false true (b64_encode false s) = Some s.
+Proof.
+  unfold b64_decode. apply (b64_decode_encode_loop (length s)); [lia|].
+  pose proof (proj2 (b64_encode_length_mod s)). lia.
+Qed.
+
+(* marshalSingular writes padded standard base64 and unmarshalBytes reads it back *)
+Theorem bytes_base64_roundtrip b tok :
+  t_kind tok = KString -> t_str tok = b64_encode false b -> unmarshal_bytes tok = Some b.
+Proof.
+  intros Hk Hs. unfold unmarshal_bytes. rewrite Hk, Hs, b64_encode_std_alphabet.
+  rewrite (proj1 (b64_encode_length_mod b)). cbn [Nat.eqb]. apply b64_decode_encode.
+Qed.
